@@ -36,6 +36,10 @@ class Inconclusive(Exception):
     pass
 
 
+class SeedDone(Exception):
+    """raised in the parent process once the first exploration of a sharded harness has been seeded"""
+
+
 def _env():
     e = dict(os.environ)
     e["CARGO_NET_OFFLINE"] = "true"
@@ -309,7 +313,17 @@ class Run:
 
     def explore(self, P, entry, make_args, world_factory=None, bound_ok=False, **kw):
         """bound_ok: the harness itself proves that paths ending in BoundExceeded are infeasible under its input bounds"""
-        res = explore(P, entry, make_args, world_factory, shard=self.shard, **kw)
+        self.explore_calls = getattr(self, "explore_calls", 0) + 1
+        seed_file = os.path.join(self.scen_dir, f"seed-{self.explore_calls}.json")
+        if getattr(self, "seed_mode", None):
+            sd = explore(P, entry, make_args, world_factory, seed_only=8 * self.seed_mode, **kw)
+            with open(seed_file, "w") as f:
+                json.dump(sd, f)
+            raise SeedDone()
+        seed = None
+        if self.shard is not None and os.path.exists(seed_file) and os.environ.get("VERIF_REUSE_MIR"):
+            seed = json.load(open(seed_file))
+        res = explore(P, entry, make_args, world_factory, shard=self.shard, seed=seed, **kw)
         self.stats["paths"] += len(res)
         for ctx, out in res:
             self.stats["transitions"] += ctx.steps
@@ -542,6 +556,22 @@ def main(argv):
             if hasattr(mod, "prepare"):
                 mod.prepare(run)
             run.replay.build()
+            for fn in os.listdir(run.scen_dir):
+                if fn.startswith("seed-"):
+                    os.unlink(os.path.join(run.scen_dir, fn))
+            # seed the first exploration once, here, instead of in every worker
+            try:
+                os.environ["VERIF_REUSE_MIR"] = "1"
+                seeder = Run(a.prop, tier, seed, None)
+                seeder.seed_mode = nshards
+                seeder.replay = run.replay
+                mod.main(seeder)
+            except SeedDone:
+                run.log("first exploration seeded in the parent")
+            except Exception as e:
+                run.log(f"seeding in the parent failed ({type(e).__name__}: {e}); workers seed themselves")
+            finally:
+                os.environ.pop("VERIF_REUSE_MIR", None)
             procs = []
             env = dict(os.environ)
             env["VERIF_REUSE_MIR"] = "1"
@@ -552,6 +582,7 @@ def main(argv):
                 cmd = [sys.executable, "-c", "import sys; from mirsym.run import main; sys.exit(main(sys.argv[1:]))",
                        a.prop, "--tier", tier, "--shard", f"{i}/{nshards}", "--partial", pf]
                 procs.append((pf, subprocess.Popen(cmd, cwd=VERIF, env=env)))
+            run.log(f"{nshards} workers started")
             for pf, p in procs:
                 p.wait()
                 if os.path.exists(pf):
